@@ -557,6 +557,65 @@ def priority_part(ctx):
     return acc
 
 
+def override_part(ctx):
+    """a config passed with -c overrides *every* matching package setting for
+    the run (whatever JSON number type it uses), adds no unknown key and
+    leaves the file on disk alone"""
+    from evo import entry_points
+    from evo.tools import settings
+    acc = Acc()
+    wd = tempfile.mkdtemp(dir=os.getcwd(), prefix="c18o_")
+    with open(settings.DEFAULT_PATH, "rb") as f:
+        disk = f.read()
+    defaults = pristine_defaults()
+    for key, dv in sorted(defaults.items()):
+        if isinstance(dv, bool):
+            vals = [not dv]
+        elif isinstance(dv, float):
+            vals = [dv + 1.5, int(dv) + 3]       # float and integer-valued
+        elif isinstance(dv, int):
+            vals = [dv + 2, float(dv) + 0.5]
+        elif isinstance(dv, list):
+            vals = [list(dv[:1]) + ["x"], []]
+        else:
+            vals = [str(dv) + "_cfg"]
+        for v in vals:
+            cfg = os.path.join(wd, "o.json")
+            with open(cfg, "w") as f:
+                json.dump({key: v, "not_a_setting": 1, "align": True}, f)
+            saved = dict(settings.SETTINGS)
+            try:
+                args = cli.parse("ape", ["tum", "a", "b", "-c", cfg])
+                args = entry_points.merge_config(args)
+                got = settings.SETTINGS[key]
+                msgs = []
+                if got != v or type(got) is not type(v):
+                    msgs.append("-c {%s: %r} -> the run uses %r" %
+                                (key, v, got))
+                if "not_a_setting" in settings.SETTINGS:
+                    msgs.append("unknown key was added to the settings")
+                if args.align is not True:
+                    msgs.append("config value did not override the argument")
+            finally:
+                for k in list(settings.SETTINGS.keys()):
+                    if k not in saved:
+                        dict.__delitem__(settings.SETTINGS, k)
+                for k, val in saved.items():
+                    dict.__setitem__(settings.SETTINGS, k, val)
+            with open(settings.DEFAULT_PATH, "rb") as f:
+                if f.read() != disk:
+                    msgs.append("settings.json on disk was modified")
+            acc.count("evaluations")
+            acc.count("transitions")
+            acc.count("nontrivial")
+            acc.outcome("override")
+            if msgs:
+                acc.violation("override", "; ".join(msgs),
+                              {"key": key, "value": v},
+                              {"kind": "override"})
+    return acc
+
+
 def run(ctx):
     depth = ctx.pick(2, 3)
     acc = hist.bfs(ctx, FACTORY, depth, max_states=ctx.pick(None, 60000))
@@ -573,6 +632,7 @@ def run(ctx):
     st = acc.counters["states"] + len(g.distinct.get("gen_states", ()))
     acc.merge(g)
     p = priority_part(ctx)
+    p.merge(override_part(ctx))
     acc.merge(p)
     acc.counters["states"] = st + p.counters["evaluations"]
     acc.counters["evaluations"] = acc.counters["transitions"]
@@ -601,6 +661,11 @@ def replay(part, case):
         wd = tempfile.mkdtemp(dir=os.getcwd(), prefix="c18r_")
         c15.write_fixture(wd)
         return judge_generate(case["tool"], case["opts"], wd)[0]
+    if part == "override":
+        class _C(object):
+            pass
+        a = override_part(_C())
+        return [v["msg"] for v in a.violations if v["case"] == case]
     if part == "priority":
         class _C(object):
             pass
